@@ -184,7 +184,14 @@ class Enc:
                 return self.tr(sp.log(e.args[0]) / sp.log(e.args[1]))
             a = self.tr(e.args[0])
             self.domain.append(a > 0)
-            return self.app("log", (a,))
+            v = self.app("log", (a,))
+            if e.args[0].is_Rational and e.args[0] > 0 and ("logc", e.args[0]) not in self.cache:
+                # sound numeric enclosure of the logarithm of a rational constant (30-digit evaluation, 1e-25 relative slack)
+                self.cache[("logc", e.args[0])] = True
+                val = sp.Rational(str(sp.N(sp.log(e.args[0]), 40)))
+                slack = abs(val) * sp.Rational(1, 10**25) + sp.Rational(1, 10**30)
+                self.side += [v >= z3.Q(int((val - slack).p), int((val - slack).q)), v <= z3.Q(int((val + slack).p), int((val + slack).q))]
+            return v
         if isinstance(e, sp.cosh) or isinstance(e, sp.sinh) or isinstance(e, sp.tanh) or isinstance(e, sp.coth):
             a = e.args[0]
             ep, em = self.exp(a), self.exp(-a)
@@ -225,6 +232,10 @@ class Enc:
 
     # ---- powers and roots -------------------------------------------
     def pow(self, base, exp):
+        if exp.is_Float:
+            r = sp.nsimplify(exp, rational=True)
+            if r.is_Rational and int(r.q) <= 16 and abs(int(r.p)) <= 64 and sp.Float(r, 30) == sp.Float(exp, 30):
+                exp = r          # 0.5, 1.5, 2.0 written as floats
         if (exp.is_Integer and abs(int(exp)) > 64) or (exp.is_Rational and not exp.is_Integer and (abs(int(exp.p)) > 64 or int(exp.q) > 16)):
             # huge exponents / binary floats as exponents: uninterpreted power keyed on (base, exponent)
             b = self.tr(base)
